@@ -215,7 +215,8 @@ def validate(run, pid, label, logs, also=(), shard_of=None, overhead=OVERHEAD_MS
             if any(b[2] == "answered-late" for b in rr[0]["verdict"]["bad"]):
                 confirmed += 1
             shutil.rmtree(dd, ignore_errors=True)
-        if confirmed >= 2:
+        # the tight bound of the quiet-stretch family (below) must reproduce every time
+        if confirmed >= (2 if overhead >= OVERHEAD_MS else 3):
             run.violation("%s:%s" % (code, re.sub(r"\s+", "_", detail)[:300]), "%s (reproduced %d/3 in isolation): %s" % (code, confirmed, detail),
                           {"type": "session", "script": scripts[si], "label": label})
         else:
@@ -614,8 +615,20 @@ def c09(tier, replay):
     logs = run_sessions(binary, sessions, 4)
     sample_session(run, sessions[0], logs[0])
     totals = validate(run, "C09", "timed", logs, also=("C08",), scripts=sessions, binary=binary)
+    # quiet stretches: the search is over long before the deadline (mate in one, forced reply), nothing arrives on the channel for
+    # hundreds of milliseconds, and the answer must still go out AT the deadline - a waiting loop that naps longer the longer
+    # nothing happens (back-off) answers late by up to its longest nap, which the general 250 ms bound does not see.  Six plans
+    # spread between 300 and 1040 ms, bound plan + 80 ms, a late answer must reproduce 3 of 3 times in isolation
+    quiet = []
+    for i, p_ in enumerate((early + FORCED)[:12 if q else 60]):
+        w = [475, 750, 900, 1075, 1225, 1400][i % 6]
+        quiet.append([{"do": "send", "line": p_}, {"do": "go", "line": "go wtime %d btime %d movestogo 1" % (w, w)}])
+    plan(h, quiet)
+    qlogs = run_sessions(binary, quiet, 4)
+    qt = validate(run, "C09", "quiet", qlogs, also=("C08",), overhead=80, scripts=quiet, binary=binary)
+    run.cov["timed_go_after_a_quiet_stretch_bound_80ms"] = qt.get("gos", 0)
     # C09 owns both directions of the timing claim
-    run.cov["timed_go"] = totals.get("gos", 0)
+    run.cov["timed_go"] = totals.get("gos", 0) + qt.get("gos", 0)
     model_walleye(run, tier)
     run.cov["rule"] = ("pure: go lines on an edge grid (clock in {-1000..2*10^8} x increment x movestogo in {absent,1,2,29,30,31,40,1000} x both colours, the other "
                        "side's values varied, keyword order permuted, unknown tokens interleaved) + random lines through parse_go_command and calculate_time_slice; "
